@@ -3603,6 +3603,12 @@ class ExpectileGAM(GAM):
                 verbose=self.verbose,
             )
             check_X_y(X, y)
+            if weights is not None:
+                weights = np.array(weights).astype('f').ravel()
+                weights = check_array(
+                    weights, name='sample weights', ndim=1, verbose=self.verbose
+                )
+                check_lengths(y, weights)
 
         # do binary search
         max_ = 1.0
